@@ -21,7 +21,6 @@ import (
 	"sigs.k8s.io/controller-runtime/pkg/client/fake"
 	"sigs.k8s.io/controller-runtime/pkg/webhook/admission"
 
-	apiext "github.com/koordinator-sh/koordinator/apis/extension"
 	"github.com/koordinator-sh/koordinator/pkg/features"
 	"github.com/koordinator-sh/koordinator/pkg/util/feature"
 )
@@ -34,9 +33,31 @@ var _ = json.Marshal
 var _ = sort.Ints
 
 // ---- C13 shared helpers (identical copy in the validating and the mutating harness) ----
+// Names are the LITERAL strings of the protocol (not the apis/extension identifiers): renaming a Go
+// identifier in /repo is harmless, changing the VALUE of a constant makes the implementation
+// disagree with the model / the oracle on these literals (and breaks a tie lemma of Ties/C13.lean).
 
-var c13ResNames = []corev1.ResourceName{corev1.ResourceCPU, corev1.ResourceMemory, apiext.BatchCPU, apiext.BatchMemory,
-	apiext.MidCPU, apiext.MidMemory, "example.com/foo"}
+const (
+	c13LabelQoS = "koordinator.sh/qosClass"
+	c13LabelPC  = "koordinator.sh/priority-class"
+	c13LabelSub = "koordinator.sh/priority"
+	c13LabelSrc = "c13/src" // a foreign label: source / target of labelKeysMapping
+	c13AnnExt   = "node.koordinator.sh/extended-resource-spec"
+	c13AnnSkip  = "config.koordinator.sh/skip-update-resources"
+)
+
+var c13LabelKeys = []string{c13LabelQoS, c13LabelPC, c13LabelSrc} // key codes 0 1 2
+
+var c13ResNames = []corev1.ResourceName{"cpu", "memory", "kubernetes.io/batch-cpu", "kubernetes.io/batch-memory",
+	"kubernetes.io/mid-cpu", "kubernetes.io/mid-memory", "example.com/foo"}
+
+// the JSON shape of the summary annotation, restated
+type c13ExtSpec struct {
+	Containers map[string]struct {
+		Limits   corev1.ResourceList `json:"limits,omitempty"`
+		Requests corev1.ResourceList `json:"requests,omitempty"`
+	} `json:"containers,omitempty"`
+}
 
 func c13ResCode(n corev1.ResourceName) int {
 	for i, x := range c13ResNames {
@@ -50,17 +71,22 @@ func c13ResCode(n corev1.ResourceName) int {
 var c13QoSNames = []string{"", "LSE", "LSR", "LS", "BE", "SYSTEM"} // code 0 = a string naming no class
 var c13PCNames = []string{"", "koord-prod", "koord-mid", "koord-batch", "koord-free"}
 
-func c13NameCode(names []string, labels map[string]string, key string) int {
+// c13EncStr: LSTR of a present string: <n> <byte>*
+func c13EncStr(v string) string {
+	parts := []string{strconv.Itoa(len(v))}
+	for i := 0; i < len(v); i++ {
+		parts = append(parts, strconv.Itoa(int(v[i])))
+	}
+	return strings.Join(parts, " ")
+}
+
+// c13EncLabel: LSTR of a label (absent = -1)
+func c13EncLabel(labels map[string]string, key string) string {
 	v, ok := labels[key]
 	if !ok {
-		return -1
+		return "-1"
 	}
-	for i := 1; i < len(names); i++ {
-		if names[i] == v {
-			return i
-		}
-	}
-	return 0
+	return c13EncStr(v)
 }
 
 // c13Nano: the exact amount of a quantity in nano-units (Quantity has no finer precision).
@@ -111,11 +137,11 @@ func c13EncOptQ(l corev1.ResourceList, k corev1.ResourceName) string {
 }
 
 func c13EncAnnot(ann map[string]string) string {
-	data, ok := ann[apiext.AnnotationExtendedResourceSpec]
+	data, ok := ann[c13AnnExt]
 	if !ok {
 		return "0"
 	}
-	spec := &apiext.ExtendedResourceSpec{}
+	spec := &c13ExtSpec{}
 	if err := json.Unmarshal([]byte(data), spec); err != nil {
 		return "1"
 	}
@@ -128,8 +154,8 @@ func c13EncAnnot(ann map[string]string) string {
 	for _, n := range names {
 		c := spec.Containers[n]
 		parts = append(parts, strconv.Itoa(c13CtrCode(n)),
-			c13EncOptQ(c.Requests, apiext.BatchCPU), c13EncOptQ(c.Requests, apiext.BatchMemory),
-			c13EncOptQ(c.Limits, apiext.BatchCPU), c13EncOptQ(c.Limits, apiext.BatchMemory))
+			c13EncOptQ(c.Requests, "kubernetes.io/batch-cpu"), c13EncOptQ(c.Requests, "kubernetes.io/batch-memory"),
+			c13EncOptQ(c.Limits, "kubernetes.io/batch-cpu"), c13EncOptQ(c.Limits, "kubernetes.io/batch-memory"))
 	}
 	return strings.Join(parts, " ")
 }
@@ -140,16 +166,26 @@ func c13EncMeta(pod *corev1.Pod) string {
 		hp, pv = 1, int64(*pod.Spec.Priority)
 	}
 	hs, sv := 0, int64(0)
-	if s := pod.Labels[apiext.LabelPodPriority]; s != "" {
+	if s := pod.Labels[c13LabelSub]; s != "" {
 		n, _ := strconv.ParseInt(s, 10, 64)
 		hs, sv = 1, n
 	}
-	return fmt.Sprintf("%d %d %d %d %d %d", c13NameCode(c13QoSNames, pod.Labels, apiext.LabelPodQoS),
-		c13NameCode(c13PCNames, pod.Labels, apiext.LabelPodPriorityClass), hp, pv, hs, sv)
+	return fmt.Sprintf("%s %s %s %d %d %d %d", c13EncLabel(pod.Labels, c13LabelQoS), c13EncLabel(pod.Labels, c13LabelPC),
+		c13EncLabel(pod.Labels, c13LabelSrc), hp, pv, hs, sv)
 }
 
-func c13EncCtr(c *corev1.Container) string {
+func c13IsSidecar(c *corev1.Container) bool {
+	return c.RestartPolicy != nil && *c.RestartPolicy == corev1.ContainerRestartPolicyAlways
+}
+
+// c13EncCtrObs: the observation form (name, requests, limits)
+func c13EncCtrObs(c *corev1.Container) string {
 	return fmt.Sprintf("%d %s %s", c13CtrCode(c.Name), c13EncRL(c.Resources.Requests), c13EncRL(c.Resources.Limits))
+}
+
+// c13EncCtr: the CTR token sequence (name, sidecar, requests, limits)
+func c13EncCtr(c *corev1.Container) string {
+	return fmt.Sprintf("%d %d %s %s", c13CtrCode(c.Name), vB(c13IsSidecar(c)), c13EncRL(c.Resources.Requests), c13EncRL(c.Resources.Limits))
 }
 
 // c13EncPod: the POD token sequence of the line protocol (see lean/KoordVerif/Driver/C13.lean).
@@ -161,7 +197,8 @@ func c13EncPod(pod *corev1.Pod) string {
 		st = 2
 	}
 	parts := []string{c13EncMeta(pod), strconv.Itoa(st), c13EncAnnot(pod.Annotations),
-		strconv.Itoa(len(pod.Spec.InitContainers)), strconv.Itoa(len(pod.Spec.Containers)), strconv.Itoa(vB(pod.Spec.Overhead != nil))}
+		strconv.Itoa(len(pod.Spec.InitContainers)), strconv.Itoa(len(pod.Spec.Containers)), strconv.Itoa(vB(pod.Spec.Overhead != nil)),
+		strconv.Itoa(vB(pod.Spec.Resources != nil))}
 	for i := range pod.Spec.InitContainers {
 		parts = append(parts, c13EncCtr(&pod.Spec.InitContainers[i]))
 	}
@@ -171,13 +208,24 @@ func c13EncPod(pod *corev1.Pod) string {
 	if pod.Spec.Overhead != nil {
 		parts = append(parts, c13EncRL(pod.Spec.Overhead))
 	}
+	if pod.Spec.Resources != nil {
+		parts = append(parts, c13EncRL(pod.Spec.Resources.Requests), c13EncRL(pod.Spec.Resources.Limits))
+	}
 	return strings.Join(parts, " ")
 }
 
 var c13CPUStrs = []string{"1", "2", "4", "500m", "1m", "0.0005", "1500m", "0", "0.1", "999999900n", "1000000100n", "100u", "2000m", "3", "250m", "1001m", "16"}
 var c13MemStrs = []string{"1Gi", "512Mi", "1.5Gi", "100M", "128974848", "0", "1e3", "123456789m", "4Gi", "1Ki", "1", "64Mi", "2G"}
+var c13NegStrs = []string{"-1", "-2", "-500m", "-1m", "-0.0005", "-1500m", "-999999900n", "-1Gi", "-1", "-100u"}
+
+// c13Neg: set by a generator for the pods that may carry negative quantities (invalid for the API
+// server, but admission webhooks run before validation).
+var c13Neg = false
 
 func c13Q(r *vRand, code int) resource.Quantity {
+	if c13Neg && r.Chance(1, 5) {
+		return resource.MustParse(c13NegStrs[r.Intn(len(c13NegStrs))])
+	}
 	switch code {
 	case 0:
 		if r.Chance(1, 4) {
@@ -201,6 +249,68 @@ func c13Q(r *vRand, code int) resource.Quantity {
 		return resource.MustParse(c13MemStrs[r.Intn(len(c13MemStrs))])
 	}
 	return *resource.NewQuantity(int64(r.Range(0, 8)), resource.DecimalSI)
+}
+
+// c13GenPodLevel: spec.resources (pod-level requests / limits of cpu and memory; rarely empty or foreign only)
+func c13GenPodLevel(r *vRand, wholeCPU bool) *corev1.ResourceRequirements {
+	rr := &corev1.ResourceRequirements{}
+	if r.Chance(1, 8) {
+		if r.Bool() {
+			rr.Requests = corev1.ResourceList{}
+		}
+		return rr
+	}
+	req, lim := corev1.ResourceList{}, corev1.ResourceList{}
+	if r.Chance(2, 3) {
+		q := c13Q(r, 0)
+		if wholeCPU {
+			q = *resource.NewQuantity(int64(r.Range(1, 8)), resource.DecimalSI)
+		}
+		req["cpu"] = q
+	}
+	if r.Chance(1, 2) {
+		req["memory"] = c13Q(r, 1)
+	}
+	if r.Chance(1, 8) {
+		req["example.com/foo"] = c13Q(r, 6)
+	}
+	if r.Chance(1, 2) {
+		lim["cpu"] = c13Q(r, 0)
+	}
+	if r.Chance(1, 2) {
+		lim["memory"] = c13Q(r, 1)
+	}
+	if len(req) > 0 || r.Bool() {
+		rr.Requests = req
+	}
+	if len(lim) > 0 || r.Bool() {
+		rr.Limits = lim
+	}
+	return rr
+}
+
+// c13AllNonNegative: no negative quantity anywhere in the pod's resource lists
+func c13AllNonNegative(pod *corev1.Pod) bool {
+	ok := true
+	chk := func(l corev1.ResourceList) {
+		for _, q := range l {
+			if q.Sign() < 0 {
+				ok = false
+			}
+		}
+	}
+	for _, cs := range [][]corev1.Container{pod.Spec.InitContainers, pod.Spec.Containers} {
+		for i := range cs {
+			chk(cs[i].Resources.Requests)
+			chk(cs[i].Resources.Limits)
+		}
+	}
+	chk(pod.Spec.Overhead)
+	if pod.Spec.Resources != nil {
+		chk(pod.Spec.Resources.Requests)
+		chk(pod.Spec.Resources.Limits)
+	}
+	return ok
 }
 
 // c13Resources: one container's requirements.  shape: 0 req=lim, 1 limits only, 2 requests only,
@@ -317,26 +427,52 @@ func c13PickStr(r *vRand, xs []string) string { return xs[r.Intn(len(xs))] }
 
 // ---- end of shared helpers ----
 
-// c13OraclePodRequest: pod-level request of one resource in nano-units, from scratch:
-// max(sum of containers, largest init container) + overhead.
+// c13OraclePodRequest: the pod's request of one resource in nano-units, from scratch after the
+// Kubernetes definition (KEP-753 sidecars, pod-level resources): containers and sidecars run
+// together; an ordinary init container runs together with the sidecars started before it; the pod
+// needs the larger of the two phases; a pod-level cpu/memory request replaces that; overhead is added.
+// Only meaningful for non-negative quantities (callers check c13AllNonNegative).
 func c13OraclePodRequest(pod *corev1.Pod, name corev1.ResourceName) *big.Int {
-	sum := new(big.Int)
-	for _, c := range pod.Spec.Containers {
+	get := func(c *corev1.Container) *big.Int {
 		if q, ok := c.Resources.Requests[name]; ok {
-			sum.Add(sum, c13Nano(q))
+			return c13Nano(q)
+		}
+		return new(big.Int)
+	}
+	running := new(big.Int)
+	for i := range pod.Spec.Containers {
+		running.Add(running, get(&pod.Spec.Containers[i]))
+	}
+	sidecars, initPeak := new(big.Int), new(big.Int)
+	for i := range pod.Spec.InitContainers {
+		c := &pod.Spec.InitContainers[i]
+		phase := new(big.Int)
+		if c13IsSidecar(c) {
+			sidecars.Add(sidecars, get(c))
+			running.Add(running, get(c))
+			phase.Set(sidecars)
+		} else {
+			phase.Add(sidecars, get(c))
+		}
+		if phase.Cmp(initPeak) > 0 {
+			initPeak.Set(phase)
 		}
 	}
-	for _, c := range pod.Spec.InitContainers {
-		if q, ok := c.Resources.Requests[name]; ok {
-			if n := c13Nano(q); n.Cmp(sum) > 0 {
-				sum = n
-			}
+	total := running
+	if initPeak.Cmp(total) > 0 {
+		total = initPeak
+	}
+	if pod.Spec.Resources != nil && (name == "cpu" || name == "memory") {
+		_, anyCPU := pod.Spec.Resources.Requests["cpu"]
+		_, anyMem := pod.Spec.Resources.Requests["memory"]
+		if q, ok := pod.Spec.Resources.Requests[name]; ok && (anyCPU || anyMem) {
+			total = c13Nano(q)
 		}
 	}
 	if q, ok := pod.Spec.Overhead[name]; ok {
-		sum = new(big.Int).Add(sum, c13Nano(q))
+		total = new(big.Int).Add(total, c13Nano(q))
 	}
-	return sum
+	return total
 }
 
 func c13GenValidatingPod(r *vRand) *corev1.Pod {
@@ -346,9 +482,9 @@ func c13GenValidatingPod(r *vRand) *corev1.Pod {
 		pod.Labels = map[string]string{}
 	}
 	if q == 0 {
-		pod.Labels[apiext.LabelPodQoS] = c13PickStr(r, []string{"foo", "", "be", "Ls"})
+		pod.Labels[c13LabelQoS] = c13PickStr(r, []string{"foo", "", "be", "Ls"})
 	} else if q > 0 {
-		pod.Labels[apiext.LabelPodQoS] = c13QoSNames[q]
+		pod.Labels[c13LabelQoS] = c13QoSNames[q]
 	}
 	// priority class: mostly one the protocol permits for this QoS
 	pc := r.Intn(5)
@@ -366,9 +502,9 @@ func c13GenValidatingPod(r *vRand) *corev1.Pod {
 			pod.Labels = map[string]string{}
 		}
 		if pc == 0 {
-			pod.Labels[apiext.LabelPodPriorityClass] = c13PickStr(r, []string{"foo", "", "koord-Prod"})
+			pod.Labels[c13LabelPC] = c13PickStr(r, []string{"foo", "", "koord-Prod"})
 		} else {
-			pod.Labels[apiext.LabelPodPriorityClass] = c13PCNames[pc]
+			pod.Labels[c13LabelPC] = c13PCNames[pc]
 		}
 		if r.Bool() {
 			v := int32(r.Pick(c13Priorities))
@@ -387,9 +523,11 @@ func c13GenValidatingPod(r *vRand) *corev1.Pod {
 		if pod.Labels == nil {
 			pod.Labels = map[string]string{}
 		}
-		pod.Labels[apiext.LabelPodPriority] = strconv.Itoa(r.Range(0, 3))
+		pod.Labels[c13LabelSub] = strconv.Itoa(r.Range(0, 3))
 	}
 	whole := (q == 1 || q == 2) && r.Chance(7, 10)
+	c13Neg = !whole && r.Chance(1, 12)
+	defer func() { c13Neg = false }()
 	ext := 8
 	if q == 4 {
 		ext = 35
@@ -398,12 +536,23 @@ func c13GenValidatingPod(r *vRand) *corev1.Pod {
 	for i := 0; i < nc; i++ {
 		pod.Spec.Containers = append(pod.Spec.Containers, corev1.Container{Name: fmt.Sprintf("c%d", i), Resources: c13Resources(r, whole, ext)})
 	}
-	ni := int(r.Pick([]int64{0, 0, 0, 1, 2}))
+	ni := int(r.Pick([]int64{0, 0, 0, 1, 2, 3}))
 	for i := 0; i < ni; i++ {
-		pod.Spec.InitContainers = append(pod.Spec.InitContainers, corev1.Container{Name: fmt.Sprintf("c%d", 10+i), Resources: c13Resources(r, whole, ext)})
+		ic := corev1.Container{Name: fmt.Sprintf("c%d", 10+i), Resources: c13Resources(r, whole, ext)}
+		if r.Chance(1, 3) { // a sidecar: restartable init container
+			always := corev1.ContainerRestartPolicyAlways
+			ic.RestartPolicy = &always
+		} else if r.Chance(1, 10) {
+			never := corev1.ContainerRestartPolicy("Never")
+			ic.RestartPolicy = &never
+		}
+		pod.Spec.InitContainers = append(pod.Spec.InitContainers, ic)
 	}
 	if r.Chance(1, 5) {
 		pod.Spec.Overhead = c13Resources(r, whole, ext).Requests
+	}
+	if r.Chance(1, 8) {
+		pod.Spec.Resources = c13GenPodLevel(r, whole)
 	}
 	return pod
 }
@@ -418,10 +567,10 @@ func c13PerturbOld(r *vRand, newPod *corev1.Pod) *corev1.Pod {
 		if old.Labels == nil {
 			old.Labels = map[string]string{}
 		}
-		if _, ok := old.Labels[apiext.LabelPodQoS]; ok && r.Chance(1, 3) {
-			delete(old.Labels, apiext.LabelPodQoS)
+		if _, ok := old.Labels[c13LabelQoS]; ok && r.Chance(1, 3) {
+			delete(old.Labels, c13LabelQoS)
 		} else {
-			old.Labels[apiext.LabelPodQoS] = c13PickStr(r, []string{"BE", "LS", "LSR", "LSE", "SYSTEM", "foo"})
+			old.Labels[c13LabelQoS] = c13PickStr(r, []string{"BE", "LS", "LSR", "LSE", "SYSTEM", "foo"})
 		}
 	case 2, 3: // priority value changed (inside the same class or across classes)
 		if old.Spec.Priority != nil && r.Bool() {
@@ -437,19 +586,19 @@ func c13PerturbOld(r *vRand, newPod *corev1.Pod) *corev1.Pod {
 		if old.Labels == nil {
 			old.Labels = map[string]string{}
 		}
-		if _, ok := old.Labels[apiext.LabelPodPriorityClass]; ok && r.Bool() {
-			delete(old.Labels, apiext.LabelPodPriorityClass)
+		if _, ok := old.Labels[c13LabelPC]; ok && r.Bool() {
+			delete(old.Labels, c13LabelPC)
 		} else {
-			old.Labels[apiext.LabelPodPriorityClass] = c13PickStr(r, []string{"koord-prod", "koord-mid", "koord-batch", "koord-free", "foo"})
+			old.Labels[c13LabelPC] = c13PickStr(r, []string{"koord-prod", "koord-mid", "koord-batch", "koord-free", "foo"})
 		}
 	case 5: // sub-priority label changed
 		if old.Labels == nil {
 			old.Labels = map[string]string{}
 		}
 		if r.Bool() {
-			old.Labels[apiext.LabelPodPriority] = strconv.Itoa(r.Range(4, 9))
+			old.Labels[c13LabelSub] = strconv.Itoa(r.Range(4, 9))
 		} else {
-			delete(old.Labels, apiext.LabelPodPriority)
+			delete(old.Labels, c13LabelSub)
 		}
 	case 6: // resources of the old pod differ (irrelevant to the rules)
 		old.Spec.Containers[0].Resources = c13Resources(r, false, 20)
@@ -516,11 +665,24 @@ func TestVerifC13Validating(t *testing.T) {
 		h.Tag("qos:" + qos + "/pc:" + pc)
 		h.Tag(fmt.Sprintf("verdict:%v", allowed))
 		pairBad := (qos == "BE" && (pc == "koord-prod" || pc == "")) || (qos == "LSR" && pc != "koord-prod")
+		nonNeg := c13AllNonNegative(newCopy) // the statement's amounts are amounts: negative entries are compared against the model only
 		cpu := c13OraclePodRequest(newCopy, "cpu")
 		milli := c13CeilDiv(cpu, 1000000)
-		fractional := (qos == "LSR" || qos == "LSE") && new(big.Int).Mod(milli, big.NewInt(1000)).Sign() != 0
-		batch := c13OraclePodRequest(newCopy, "kubernetes.io/batch-cpu").Sign() > 0 || c13OraclePodRequest(newCopy, "kubernetes.io/batch-memory").Sign() > 0
+		fractional := nonNeg && (qos == "LSR" || qos == "LSE") && new(big.Int).Mod(milli, big.NewInt(1000)).Sign() != 0
+		batch := nonNeg && (c13OraclePodRequest(newCopy, "kubernetes.io/batch-cpu").Sign() > 0 || c13OraclePodRequest(newCopy, "kubernetes.io/batch-memory").Sign() > 0)
 		batchNonBE := batch && qos != "BE"
+		if !nonNeg {
+			h.Tag("quantities:negative")
+		}
+		if newCopy.Spec.Resources != nil {
+			h.Tag("podlevel:set")
+		}
+		for i := range newCopy.Spec.InitContainers {
+			if c13IsSidecar(&newCopy.Spec.InitContainers[i]) {
+				h.Tag("init:sidecar")
+				break
+			}
+		}
 		qosChanged, pcChanged := false, false
 		if op == 1 {
 			qosChanged = c13OracleQoS(oldCopy) != qos
@@ -554,7 +716,220 @@ func TestVerifC13Validating(t *testing.T) {
 		h.End()
 	}
 	h.Close("one (operation, old pod, new pod, feature gate) per case: QoS label over all classes/absent/garbage, priority class by value " +
-		"(on, between and outside the ranges) or by label, 1-3 containers + 0-2 init containers + overhead with cpu/memory/batch/mid/foreign " +
-		"quantities (integral, milli, sub-milli, nano, binary suffixes, zero, missing); UPDATE old pods are perturbed copies; " +
+		"(on, between and outside the ranges) or by label, 1-3 containers + 0-3 init containers (1/3 sidecars) + overhead + pod-level resources (1/8) " +
+		"with cpu/memory/batch/mid/foreign quantities (integral, milli, sub-milli, nano, binary suffixes, zero, missing, 1/12 of the pods with " +
+		"negative entries); UPDATE old pods are perturbed copies; " +
 		"non-trivial = the new pod has a QoS or a priority class; distinct by op lines")
+}
+
+// TestVerifC13ValidatingExhaustive (thorough tier): the whole decision table on a small scope.  Every
+// QoS label x priority class (by value, by label, absent, garbage, in a gap) x CPU shape (integral,
+// fractional, zero, missing, two containers summing to a whole number) x batch request (none, positive,
+// zero) x operation (CREATE, UPDATE with nothing or exactly one of QoS label / priority class by value /
+// priority value inside the class / priority-class label / sub-priority label changed) x feature gate.
+// The oracle here is the table itself in both directions (fingerprint C13:table-mismatch): admitted iff
+// permitted pair, LSR/LSE => non-zero whole CPU, batch => BE, nothing immutable changed.
+func TestVerifC13ValidatingExhaustive(t *testing.T) {
+	h := vOpen("C13")
+	if h == nil {
+		t.Skip("VERIF_OUT not set")
+	}
+	client := fake.NewClientBuilder().Build()
+	handler := &PodValidatingHandler{Client: client, Decoder: admission.NewDecoder(scheme.Scheme)}
+	type prio struct {
+		label    string // "-" = absent
+		hasValue bool
+		value    int32
+	}
+	var prios []prio
+	for _, v := range []int32{9500, 7500, 5500, 3500, 6500} {
+		prios = append(prios, prio{"-", true, v})
+	}
+	prios = append(prios, prio{"-", false, 0})
+	for _, l := range []string{"koord-prod", "koord-mid", "koord-batch", "koord-free", "foo"} {
+		prios = append(prios, prio{l, false, 0}, prio{l, true, 9500})
+	}
+	qosLabels := []string{"-", "", "LSE", "LSR", "LS", "BE", "SYSTEM", "foo"}
+	cpuShapes := []string{"integral", "fractional", "zero", "missing", "split"}
+	batchShapes := []string{"none", "positive", "zero"}
+	changes := []string{"create", "same", "qos", "class-by-value", "value-in-class", "class-label", "sub-priority"}
+
+	build := func(q string, p prio, cpu, batch string) *corev1.Pod {
+		pod := &corev1.Pod{ObjectMeta: metav1.ObjectMeta{Namespace: "default", Name: "p"}}
+		if q != "-" || p.label != "-" {
+			pod.Labels = map[string]string{}
+		}
+		if q != "-" {
+			pod.Labels[c13LabelQoS] = q
+		}
+		if p.label != "-" {
+			pod.Labels[c13LabelPC] = p.label
+		}
+		if p.hasValue {
+			v := p.value
+			pod.Spec.Priority = &v
+		}
+		c0 := corev1.Container{Name: "c0", Resources: corev1.ResourceRequirements{Requests: corev1.ResourceList{}, Limits: corev1.ResourceList{}}}
+		switch cpu {
+		case "integral":
+			c0.Resources.Requests["cpu"] = resource.MustParse("2")
+		case "fractional":
+			c0.Resources.Requests["cpu"] = resource.MustParse("1500m")
+		case "zero":
+			c0.Resources.Requests["cpu"] = resource.MustParse("0")
+		case "split":
+			c0.Resources.Requests["cpu"] = resource.MustParse("500m")
+		}
+		switch batch {
+		case "positive":
+			c0.Resources.Requests["kubernetes.io/batch-cpu"] = resource.MustParse("1000")
+		case "zero":
+			c0.Resources.Requests["kubernetes.io/batch-cpu"] = resource.MustParse("0")
+		}
+		pod.Spec.Containers = []corev1.Container{c0}
+		if cpu == "split" {
+			pod.Spec.Containers = append(pod.Spec.Containers, corev1.Container{Name: "c1",
+				Resources: corev1.ResourceRequirements{Requests: corev1.ResourceList{"cpu": resource.MustParse("1500m")}}})
+		}
+		return pod
+	}
+	classOf := func(p prio) string {
+		if p.label != "-" {
+			switch p.label {
+			case "koord-prod", "koord-mid", "koord-batch", "koord-free":
+				return p.label
+			}
+			return ""
+		}
+		if !p.hasValue {
+			return ""
+		}
+		switch {
+		case p.value >= 9000 && p.value <= 9999:
+			return "koord-prod"
+		case p.value >= 7000 && p.value <= 7999:
+			return "koord-mid"
+		case p.value >= 5000 && p.value <= 5999:
+			return "koord-batch"
+		case p.value >= 3000 && p.value <= 3999:
+			return "koord-free"
+		}
+		return ""
+	}
+	qosOf := func(q string) string {
+		switch q {
+		case "LSE", "LSR", "LS", "BE", "SYSTEM":
+			return q
+		}
+		return ""
+	}
+
+	idx := 0
+	for _, q := range qosLabels {
+		for _, p := range prios {
+			for _, cpu := range cpuShapes {
+				for _, batch := range batchShapes {
+					for _, ch := range changes {
+						for _, gate := range []bool{false, true} {
+							if ch == "create" && gate {
+								continue // the gate is only read on UPDATE; CREATE x gate adds nothing new but is cheap: keep one
+							}
+							r := h.Begin(idx)
+							idx++
+							if r == nil {
+								continue
+							}
+							newPod := build(q, p, cpu, batch)
+							var oldPod *corev1.Pod
+							immutableChanged := false
+							op := 0
+							if ch != "create" {
+								op = 1
+								oldPod = newPod.DeepCopy()
+								if oldPod.Labels == nil {
+									oldPod.Labels = map[string]string{}
+								}
+								switch ch {
+								case "qos": // the old pod had another QoS label (or none)
+									if q == "LS" {
+										oldPod.Labels[c13LabelQoS] = "BE"
+									} else {
+										oldPod.Labels[c13LabelQoS] = "LS"
+									}
+									immutableChanged = qosOf(oldPod.Labels[c13LabelQoS]) != qosOf(q)
+								case "class-by-value": // old priority value in another class
+									v := int32(7500)
+									if p.hasValue && p.value == 7500 {
+										v = 5500
+									}
+									oldPod.Spec.Priority = &v
+									oldP := p
+									oldP.hasValue, oldP.value = true, v
+									immutableChanged = classOf(oldP) != classOf(p)
+								case "value-in-class": // old priority value differs but stays in the class
+									if p.hasValue {
+										v := p.value + 1
+										oldPod.Spec.Priority = &v
+									}
+								case "class-label":
+									oldP := p
+									if p.label == "koord-mid" {
+										oldP.label = "koord-batch"
+									} else {
+										oldP.label = "koord-mid"
+									}
+									oldPod.Labels[c13LabelPC] = oldP.label
+									immutableChanged = classOf(oldP) != classOf(p)
+								case "sub-priority":
+									oldPod.Labels[c13LabelSub] = "7"
+									immutableChanged = !gate
+								}
+							}
+							h.Op("pod 0 %s", c13EncPod(newPod))
+							if oldPod != nil {
+								h.Op("pod 1 %s", c13EncPod(oldPod))
+							}
+							h.Op("validate %d %d", vB(gate), op)
+							operation := []admissionv1.Operation{admissionv1.Create, admissionv1.Update}[op]
+							req := admission.Request{AdmissionRequest: admissionv1.AdmissionRequest{
+								Resource:  metav1.GroupVersionResource{Group: "", Version: "v1", Resource: "pods"},
+								Operation: operation, Object: runtime.RawExtension{}, OldObject: runtime.RawExtension{}}}
+							restore := feature.SetFeatureGateDuringTest(t, feature.DefaultMutableFeatureGate, features.ColocationProfileSkipValidatingPriority, gate)
+							var allowed bool
+							panicked := h.Guard(func() {
+								allowed, _, _ = handler.clusterColocationProfileValidatingPod(context.TODO(), req, newPod, oldPod)
+							})
+							restore()
+							if panicked {
+								h.Obs("panic")
+								h.End()
+								continue
+							}
+							h.Obs("verdict %d", vB(allowed))
+							// ---- the table ----
+							qc, pc := qosOf(q), classOf(p)
+							pairOK := !(qc == "BE" && (pc == "koord-prod" || pc == "")) && !(qc == "LSR" && pc != "koord-prod")
+							cpuOK := !(qc == "LSR" || qc == "LSE") || cpu == "integral" || cpu == "split"
+							batchOK := batch != "positive" || qc == "BE"
+							want := pairOK && cpuOK && batchOK && !immutableChanged
+							h.Tag("x:qos:" + qc + "/pc:" + pc)
+							h.Tag("x:cpu:" + cpu)
+							h.Tag("x:change:" + ch)
+							h.Tag(fmt.Sprintf("x:verdict:%v", allowed))
+							if allowed != want {
+								h.Fail("C13:table-mismatch", "qos=%q class=%q(label %q) cpu=%s batch=%s change=%s gate=%v: admitted=%v, table says %v",
+									q, pc, p.label, cpu, batch, ch, gate, allowed, want)
+							}
+							h.Nontrivial()
+							h.End()
+						}
+					}
+				}
+			}
+		}
+	}
+	h.Extra("exhaustive", fmt.Sprintf("QoS label {absent,'',LSE,LSR,LS,BE,SYSTEM,foo} x 16 priority sources x 5 CPU shapes x 3 batch shapes x {CREATE, 6 UPDATE variants x gate}: %d cases", idx))
+	h.Close("exhaustive enumeration of the validating decision table: QoS label x priority class (value in/between ranges, label, garbage, absent) x " +
+		"CPU {integral, fractional, zero, missing, split} x batch {none, positive, zero} x CREATE / UPDATE with at most one immutable field changed x gate; " +
+		"every case non-trivial; oracle = the table in both directions")
 }
